@@ -840,7 +840,7 @@ pub mod fasta {
             old(self).state == State::Finished ==> old(self).position.byte == old(self).gpos() && old(self).position.byte <= old(self).f().len() + 1,
         ensures
             [C01,C03,C04,C05,C06|fasta.seek.frame] final(self).f() == old(self).f() && final(self).buf_policy == old(self).buf_policy,
-            [C04,C05|fasta.seek.positioned] r is Ok ==> final(self).wf() && final(self).state == State::Positioned
+            [C04,C05,C06|fasta.seek.positioned] r is Ok ==> final(self).wf() && final(self).state == State::Positioned
                 && final(self).position == *to && final(self).gpos() == to.byte && final(self).cursor() == to.byte
                 && final(self).buf_reader.errs() == old(self).buf_reader.errs(),
             [C09|fasta.seek.capacity] final(self).buf_reader.cap() == old(self).buf_reader.cap(),
